@@ -29,6 +29,26 @@ GROUPS = [
     _op('pattern_count', 'h_pattern', 'H_PATTERN', 1, 'quick', extra=['CMV_PAT_WHICH=1']),
     _op('pattern_cancel', 'h_pattern', 'H_PATTERN', 1, 'thorough', extra=['CMV_PAT_WHICH=2'], timeout=1200),
     _op('clear', 'h_clear', 'H_CLEAR', 1, 'quick', unwind=44),
+    # layer L1: the sift functions under their own contracts (three levels, right children) -- see _sift below
+    # (capacity-4 variants of dequeue / enqueue / remove / reprioritize gave no answer in 25 min: not registered; the sifts at larger sizes are layer L1 below)
     # ('reset' = terminate + initialize is not registered: its query ends with ERROR statuses after an unwinding
     #  assertion in the re-initialisation with a symbolic initial exponent; initialize itself is C02.L3.initialize.cap2)
 ]
+
+def _sift(which, n, tier, timeout=600):
+    fn = 'heap_' + which
+    return Group(id='C02.L1.%s.n%d' % (fn, n), prop='C02', harness='sift.c', entry='h_' + which, defines=['H_' + which.upper(), 'NS=%du' % n], level='bounded-shape',
+          bound='arbitrary heap of <= %d entries satisfying the call-site precondition of %s, any index; loops fully unwound with unwinding assertions' % (n, fn),
+          backend='sat', timeout=timeout, tier=tier, unwind=n + 3, canaries=2, functions=[fn], also=['C01', 'C06', 'C10'],
+          assumes=['the configured comparison is a strict weak order (proved for the five real ones in C02.L4)',
+                   'the precondition is what the callers (enqueue / dequeue / remove / reprioritize) establish: checked with the real callers at capacity 2 (C02.L3), by transitivity of the order above'])
+# n = 3 is the smallest heap with a right child (13 s solo); n = 5 (two levels below the root) takes minutes: thorough.  n = 7 did not finish in 600 s: not registered.
+GROUPS += [_sift('up', 3, 'quick'), _sift('down', 3, 'quick'), _sift('up', 5, 'thorough', 1500)]
+
+# layer L2: pattern_cancel against the CONTRACT of remove (layout of the remaining entries arbitrary after every removal)
+GROUPS += [Group(id='C02.L2.pattern_cancel.remove_contract', prop='C02', harness='patcancel.c', entry='h_patcancel', defines=['NS=4u'], level='bounded-shape',
+          bound='arbitrary view of <= 4 entries, any pattern; cmi_hashheap_remove replaced by its contract (view minus key, arbitrary new layout); loops fully unwound with unwinding assertions',
+          backend='sat', timeout=600, tier='quick', unwind=7, canaries=2, functions=['cmi_hashheap_pattern_cancel', 'item_match'],
+          replace_calls=[('cmi_hashheap_remove', 'cmv_remove_contract')], also=['C01', 'C10'],
+          stubs=['cmi_hashheap_remove: contract stub (established on the real body by C02.L3.remove.cap2: view change + representation invariant); layout after a removal over-approximated as arbitrary'],
+          assumes=['the caller does not rely on the heap order between two removals (pattern_cancel reads the order nowhere)'])]
